@@ -128,7 +128,13 @@ pub(super) unsafe fn sys_enter(
 
     // K11: waiting.
     let mut errno = 0;
-    if flags & abi::ENTER_GETEVENTS != 0 {
+    // K18: an injected failure of the wait (only when nothing was submitted:
+    // otherwise the call reports the number of submitted entries).
+    let injected = super::take_fail_enter();
+    if injected != 0 && ret == 0 && flags & abi::ENTER_GETEVENTS != 0 {
+        guard.rings[idx].flush_deferred();
+        errno = injected;
+    } else if flags & abi::ENTER_GETEVENTS != 0 {
         let want = min_complete.min(guard.rings[idx].cq_entries);
         loop {
             // K13: deferred task work runs now.
